@@ -45,8 +45,7 @@ def one(ctx, res: Result, hist, cfg, batch, init_tree=None):
         res.failures.append(Failure(
             what=f"{b['law']}: a change in directory {b['dir']} (how it got there: {b['provenance']})", case=meta,
             signature={"law": b["law"], "provenance": b["provenance"],
-                       "cause": "stale-path-of-moved-out-directory-reused-before-first-read"
-                       if "first-seen-under-the-stale-path-of-a-directory-that-was-moved-out" in b["provenance"] else "other"},
+                       "cause": pipeprops.cause_of(b["provenance"])},
             observed=b["got"],
             expected="FileCreated(<real path of the probe>)" if b["law"] != "non-recursive-reports-deeper-change" else "no event"))
     res.failures += pipecheck.thread_failures(run, stopped, meta, "C02")
